@@ -40,6 +40,8 @@ def plan(tier, seed):
     # class-stratified inputs: a circuit preparing a random member of every (configuration, class) pair
     for n, reps, k in ((2, 4, 1), (3, 4, 1), (4, 3, 2), (5, 1 if tier == "quick" else 6, 8), (6, 1 if tier == "quick" else 4, 48)):
         t += [("classes",) + x[1:] for x in wp.member_tasks(n, reps, k, seed)]
+    for n, k, fr in ((2, 1, 1.0), (3, 1, 1.0), (4, 2, 1.0), (5, 6, 1.0), (6, 24, 0.34 if tier == "quick" else 1.0)):
+        t += [("tablereps-c",) + x[1:] for x in wp.tablerep_tasks(n, k, seed, fr)]
     random.Random(seed).shuffle(t)
     return t
 
@@ -183,7 +185,20 @@ def work(task):
     p = Partial()
     table = p.extra.setdefault("table", {})
     retain = Retained(digest_circuit, 500)
-    if task[0] == "classes":
+    if task[0] == "tablereps-c":
+        from htstabilizer.stabilizer_circuits import compress_preparation_circuit
+        for case in wp.iter_cases(("tablereps",) + task[1:]):
+            n, conn = case["n"], case["conn"]
+            g = list(case["circuit"])
+            run_case(p, n, conn, g, table, retain, "table-representative")
+            # the caller goes on building on a compressed circuit it received (appends gates); later answers must not care
+            ok, out = call(compress_preparation_circuit, ws.qiskit_circuit(g, n), conn)
+            if ok:
+                call(out.h, 0)
+                call(out.cx, 0, n - 1)
+            p.extra.setdefault("labels", set()).add((n, conn, case["label"]))
+        p.sample({"stratum": "table representatives", "n": n, "connectivity": conn, "input": fmt_gates(g)[:120]})
+    elif task[0] == "classes":
         rnd = random.Random(repr(task[-2:]))
         for case in wp.iter_cases(("members",) + task[1:]):
             n, conn = case["n"], case["conn"]
